@@ -555,7 +555,7 @@ impl MonitorSet {
                 let first_line = m.lines().next().unwrap_or("");
                 let first_line = first_line.split(", raft_id").next().unwrap_or(first_line);
                 let mut head: String = first_line.chars().take(70).collect();
-                if head.starts_with("assertion") {
+                if head.starts_with("assertion") || head.starts_with("called `") || head.starts_with("attempt to") || head.starts_with("index out of") {
                     let base = loc.rsplit('/').next().unwrap_or(loc);
                     head = format!("{} @ {}", head, base);
                 }
@@ -633,6 +633,7 @@ pub fn main(args: &[String]) {
     let ignore: Vec<String> = ignore_s.split(',').filter(|s| !s.is_empty()).map(|s| s.replace(' ', "_")).collect();
     let strict = args.iter().any(|a| a == "--strict");
     let verbose = args.iter().any(|a| a == "--verbose");
+    let vco = args.iter().any(|a| a == "--voter-campaign-only");
     let flags = match Flags::of(&prop) {
         Some(f) => f,
         None => {
@@ -653,6 +654,7 @@ pub fn main(args: &[String]) {
         sim.quiet = true;
         sim.extra_steps = flags.no_panic;
         sim.force_sim_snap = true;
+        sim.voter_campaign_only = vco;
         sim.mon = Some(Box::new(MonitorSet::new(flags, &inject, &ignore, strict)));
         let scen = flags.prevote && ((prop == "prevote" && k % 2 == 1) || (prop != "prevote" && k % 5 == 4));
         if scen {
@@ -681,6 +683,9 @@ pub fn main(args: &[String]) {
             }
             if strict {
                 line.push_str(" --strict");
+            }
+            if vco {
+                line.push_str(" --voter-campaign-only");
             }
             println!("{}", line);
             println!("REASON {}", v);
